@@ -406,6 +406,8 @@ def confirm_markup(S, info):
         else:
             r = RENDER[c] if c != 'inline' else INLINE_RENDER[(info.get('inline_kinds') or {}).get(str(i), 'Shorthand')]
             t = r % i if '%d' in r else r
+            if c == 'text' and i > 0 and kinds[i - 1] == 'text':
+                t = '\u3000' + t           # two adjacent Text tokens: the lexer starts a new one at a blank that is not Typst whitespace
             src += t
             toks.append(t if t else None)
     if 'may-break' in info.get('label', ''):
